@@ -403,6 +403,14 @@ def mon_c15(k, domain, wildcard=False):
         if not body:
             continue
         stats["c15_fragments"] += 1
+        if (t in (proto.T_CNAME, proto.T_A) and len(body) > 120) or (t in (proto.T_MX, proto.T_SRV) and len(body) > 2000):
+            # More than a session of this record type can sensibly negotiate (the host-name formats hold about 120-200 /
+            # 2000 bytes and iodined cuts what does not fit): such an answer arises when a query of another type carries
+            # the session's data (anybody may name a userid under -c).  The size bound above was judged; whether the bytes
+            # that got through end the packet cannot be.
+            stats["c15_possibly_cut_by_answer_format"] = stats.get("c15_possibly_cut_by_answer_format", 0) + 1
+            u.seq, u.frag, u.body, u.asm, u.wrapped, u.done, u.started = h["dn_seq"], h["dn_frag"], body, b"", True, bool(h["last"]), True
+            continue
         if u.seq != h["dn_seq"]:
             # first data fragment of a new packet
             if h["dn_frag"] != 0:
